@@ -259,11 +259,12 @@ def exc_missing_fragment(repo, tier="quick"):
     guard = None
     for n in cfg.nodes:
         if n.kind == "if":
-            tt = fl.canon(n.ast.test, n.id)
+            t_ast, t_pol = strip_not(n.ast.test, True)
+            tt = fl.canon(t_ast, n.id)
             if tt[0] == "cmp" and tt[1] in (("not in",), ("in",)) and tt[2][1] == fd:
                 na = node_attr(tt[2][0])
                 if na and na[2] == ("const", "fragname"):
-                    guard = (n, tt[1][0] == "not in", na[1])
+                    guard = (n, (tt[1][0] == "not in") == t_pol, na[1])
     need(guard is not None, "anchor vanished: no `fragname not in fragment_dict` test in resolve_disconnected_molecule", fi)
     g, neg, meta_node = guard
     label = "T" if neg else "F"
